@@ -3,6 +3,7 @@
 From Coq Require Import ZArith List Bool.
 From Coq Require Import PrimFloat.
 From PV Require Import Model.Base Model.Sched Model.Seq Model.Eom.
+From PV Require Gen.Pure Model.Chan Proofs.PureEq.
 From PV Require Import Proofs.SchedInv Proofs.EomSpec.
 Import ListNotations.
 Open Scope Z_scope.
@@ -75,3 +76,18 @@ Theorem C15_drift_correction_cancels :
       forall l, corrected M one mul Zr U 0 l = mul (ideal M one mul U l) (Zr (total l)).
 Proof. exact drift_correction_cancels_from_rest. Qed.
 Print Assumptions C15_drift_correction_cancels.
+
+(** Tie to the source by translation: the EOM buffer time and the EOM rise time
+    are EQUAL to the functions regenerated from the current source
+    (Channel._eom_buffer_time, BaseEOM.rise_time). *)
+Theorem C15_source_eom_buffer_time :
+  forall (rise : Z) (custom : option Z),
+    Gen.Pure.gen_eom_buffer_time rise custom = Chan.eom_buffer_time_of rise custom.
+Proof. exact PureEq.eom_buffer_time_eq. Qed.
+Print Assumptions C15_source_eom_buffer_time.
+
+Theorem C15_source_eom_rise_time :
+  forall b : float,
+    f_ne b zero = true -> Gen.Pure.gen_eom_rise_time b = Chan.rise_time (Some b).
+Proof. exact PureEq.eom_rise_time_eq. Qed.
+Print Assumptions C15_source_eom_rise_time.
